@@ -5,4 +5,5 @@ cd "$(dirname "$0")"
 export CARGO_NET_OFFLINE=true
 (cd driver && cargo build --offline)
 python3 rules/facts.py lib >/dev/null
+python3 -c "import sys; sys.path.insert(0, \"rules\"); import controls; controls._ctx()" >/dev/null
 echo setup ok
